@@ -16,6 +16,21 @@ def run(ck: Check) -> None:
     rng = ck.rng
     docs = mdgen.valid_docs(rng, ck.n(60, 14))
     cases = []
+    # what the checker accepts is a fixed schema, not something earlier calls in the process can widen: the builders (and the other entry points) are first
+    # used with type names outside the supported set, then documents declaring exactly those types are checked
+    from .. import impl, mined
+    other_types = ["pkg_mgr", "channeler", "x", "root.json", "Root", "key_mgr.json", ""] + [t_ for t_ in mined.strs() if isinstance(t_, str)][:6]
+    with impl.quiet_stdout():
+        for ty in other_types:
+            for f in (lambda: impl.metadata_construction.build_delegating_metadata(ty), lambda: impl.metadata_construction.build_delegating_metadata(metadata_type=ty, delegations={}, version=1),
+                      lambda: impl.signing.wrap_as_signable({"type": ty}), lambda: impl.common.checkformat_delegating_metadata(gen.set_path(docs[0], ("signed", "type"), ty))):
+                try:
+                    f()
+                except Exception:  # noqa: BLE001 — the outcome of these priming calls is judged elsewhere (C16); here only what they leave behind matters
+                    pass
+    for d in docs[:4]:
+        for ty in other_types:
+            cases.append(Case("check", ["delegating_metadata", gen.set_path(d, ("signed", "type"), ty)], tag="type-outside-supported-set-after-builder-use", meta={"label": "type:" + ty}))
     for d in docs:
         cases.append(Case("check", ["delegating_metadata", d], tag="valid"))
         for m, label in mdgen.mutations(rng, d, per_path=4 if ck.thorough else 2, max_total=900 if ck.thorough else 260):
